@@ -55,6 +55,11 @@ try:
             demo_pkg = os.path.relpath(os.path.dirname(hits[0]), awt)
     if not demo_pkg:
         try:
+            demo_pkg = json.load(open(os.path.join(V, "seeded", tag, "verify.json"))).get("demo_pkg")
+        except Exception:
+            pass
+    if not demo_pkg:
+        try:
             meta = json.load(open(src + "/meta.json"))
             demo_pkg = meta.get("demo_pkg")
         except Exception:
